@@ -36,6 +36,21 @@ BOUNDARY = [
     "2 ** -1", "(-2) ** -1", "0.1 * 3", "1e308 * 10 * 0", "1 if (inf - inf) else 2", "(inf - inf) or 5", "(inf - inf) and 5",
 ]
 
+# list displays of literals: in the allowed grammar, and auto-detection sends every text starting with `[` to the transform
+# pathway, whose library calls (JSON reader, literal evaluator) must agree with Python's reading of the text
+TRANSFORM = [
+    '["\\ud83d\\ude00"]', '["A\\/"]', '["\\u00e9"]', '["\\b\\f\\n\\r\\t"]', '["\\x41"]', '["\\101"]', '["\\N{BULLET}"]',
+    '["\\U0001f600"]', '["\\ud800"]', '["\\\\"]', '["\\""]', "['a']", "['it\\'s']", '["a" "b"]', '["a", \'b\']', '[""]', '[" "]',
+    '["\\u0041\\u030a"]', '["\\q"]', '["\\0"]', '[r"\\/"]', '[b"a"]', '["\\/", "\\ud83d\\ude00", 1]', '[["\\/"]]', '[("\\/",)]',
+    "[1, 2]", "[1.0, 1e5, -0]", "[1E5]", "[-0.0]", "[1_0]", "[0x10]", "[0o7]", "[0b1]", "[01]", "[1.]", "[.5]", "[1e400]",
+    "[-1e400]", "[1E400, -1E400]", "[12345678901234567890123]", "[1e-400]", "[1j]", "[1+2j]", "[-1]", "[+1]", "[- 1]",
+    "[True, False, None]", "[true]", "[null]", "[NaN]", "[Infinity]", "[-Infinity]", "[inf]", "[pi]", "[abs(-1)]",
+    "[1, 2] + [3]", "[1, 2][0]", "[1 + 1]", "[1 < 2]", "[not 0]", "[1 if 1 else 2]", "[1, [2, [3, (4, 5)]]]", "[1,]",
+    "[ 1 , 2 ]", " [1]", "[1] ", "\t[1]", "[\n1]", "[]", "[[]]", "[()]", "[(1,)]", "[1, 'a', 2.5, True]", "[[1, 2], \"x\"]",
+    '[1, "\\u00e9", [2.5e3, "\\/"]]', "[1,2", "[1 2]", "['a' 'b' \"c\"]", "[0.1 + 0.2]", "[1e16 + 1]", "[2 ** 10]",
+    "['\\ud83d\\ude00' == '\U0001f600']", "[len('\\/')]", "[1, 2] * 2", "[1] == [1.0]", "[1] and 2", "[] or 5",
+]
+
 CONCRETE_ARGS = ["2", "-7", "2.5", "0", "'11'", "[3, 1, 2]", "(1.5, 2)", "True", "-0.0", "1e308", "10", "0.5"]
 OPERANDS = ["7", "2", "-7", "0", "2.5", "-0.5", "'ab'", "3", "[1]", "True", "1e308", "10"]
 
@@ -59,7 +74,7 @@ class C02(Prop):
     thorough_budget = 30000
     quick_deadline_s = 100
     thorough_deadline_s = 800
-    all_branches = ["o:ok", "o:fail-ros", "py:ok", "py:fail", "pyl:ok", "pyl:fail", "d:keyword", "d:compare", "d:math", "d:tool", "forced", "dg:text:ok", "dg:text:fail", "cdg:returned"]
+    all_branches = ["o:ok", "o:fail-ros", "py:ok", "py:fail", "pyl:ok", "pyl:fail", "d:keyword", "d:compare", "d:math", "d:tool", "d:literal", "forced", "dg:text:ok", "dg:text:fail", "cdg:returned"]
     assumptions = [
         "Python's semantics of operators, calls and truthiness is the environment: tracer objects script it for the "
         "orchestration check, the real interpreter (restricted eval over the same allow-listed names) supplies it for "
@@ -112,7 +127,13 @@ class C02(Prop):
         lines = mito.header(rng, self.facts, tools=self.TOOLS, silent=True, ros=(1000, 1))
         for _ in range(rng.choice([6, 8, 10])):
             k = rng.random()
-            if k < 0.08:
+            if k < 0.04:
+                els = [rng.choice(['"\\/"', '"\\ud83d\\ude00"', '"\\u00e9"', "'a'", '"b"', "1", "2.5", "1e5", "-0", "True",
+                                   "None", "[1]", "(1, 2)", '"\\n"', "1_0", "0x1f", '"\\x41"', "true", "pi", "1 + 1"])
+                       for _ in range(rng.choice([0, 1, 2, 3]))]
+                lines.append(mito.cmet_line(rng.choice(["auto", "auto", "transform"]),
+                                            rng.choice(["", " "]) + "[" + ", ".join(els) + "]"))
+            elif k < 0.08:
                 lines.append(mito.cmet_line(rng.choice(["tool", "auto"]), self._tool_text(rng, rng.choice([1, 2]))))
             elif k < 0.16:
                 for _try in range(5):
@@ -251,6 +272,15 @@ class C02(Prop):
             lines.append(mito.cdg_line(src, src == "10**5000"))
         cases.append({"lines": lines, "note": "legacy entry point values"})
         spaces.append({"name": "tool-pathway argument expressions and digest_glucose / agent texts vs Python", "cases": cases})
+        # list displays (auto-detected as the transform pathway) and the same texts forced onto the other pathways
+        cases = []
+        for i in range(0, len(TRANSFORM), 25):
+            lines = H()
+            for src in TRANSFORM[i:i + 25]:
+                lines += [mito.cmet_line("auto", src), mito.cmet_line("transform", src), mito.cmet_line("math", src)]
+            cases.append({"lines": lines, "note": "list displays on the transform pathway"})
+        spaces.append({"name": f"{len(TRANSFORM)} list displays (string escapes, number spellings, JSON-only names) x "
+                               "auto / transform / math vs Python", "cases": cases})
         # every allow-listed name with concrete arguments; every operator on concrete operand pairs
         cases, lines = [], None
         srcs = []
@@ -344,8 +374,10 @@ class C02(Prop):
                         out.append(Violation("python_raises_engine_fails", "agent reports the failure text (Python with the "
                                              f"narrowed names: {x.get('agent_ref_raise')})",
                                              "".join(map(chr, x["agent_ok_text"]))[:80], i))
-                if x.get("pathway") not in ("math", "logic", "tool") or "ref" not in x:
+                if x.get("pathway") not in ("math", "logic", "tool", "transform") or "ref" not in x:
                     continue
+                if x.get("pathway") == "transform" and x.get("ref") is None and not x.get("in_grammar"):
+                    continue      # JSON-only texts ([true], {"a": null}) are outside the allowed grammar
                 if x.get("success"):
                     if x.get("ref") is None:
                         out.append(Violation("python_raises_engine_fails", f"failure (Python: {x.get('ref_raise')})",
